@@ -97,8 +97,10 @@ static void one(Toks& t, Out& o)
         std::string ea = A, eb = B; if (ea.size() < eb.size()) ea = std::string(eb.size() - ea.size(), (char)ch) + ea; else eb = std::string(ea.size() - eb.size(), (char)ch) + eb; ref = ea == v[0] && eb == v[1]; }
     else if (op == ":repls") { t.bytes(A); t.bytes(B); t.bytes(C); Cs a(A), b(B), c(C); SimpleString s(a.p); s.replace(b.p, c.p); val = hs(s); ref = refReplace(A, B, C) == s.asCharString(); }
     else if (op == ":printable") { t.bytes(A); Cs a(A); SimpleString s(a.p); SimpleString r = s.printable(); val = hs(r); ref = refPrintable(A) == r.asCharString(); }
-    else if (op == ":split") { t.bytes(A); unsigned dc = (unsigned)t.u(); char ds[2] = { (char)dc, 0 }; Cs a(A); SimpleString s(a.p), d(ds); std::vector<std::string> v; { SimpleStringCollection col; s.split(d, col); for (size_t i = 0; i < col.size(); i++) v.push_back(col[i].asCharString()); } val = listTok(v);
-        { std::vector<std::string> e; size_t pos = 0; for (;;) { size_t f = A.find((char)dc, pos); if (f == std::string::npos) { if (pos < A.size()) e.push_back(A.substr(pos)); break; } e.push_back(A.substr(pos, f + 1 - pos)); pos = f + 1; } if (A.empty()) e.push_back(std::string()); ref = e == v; } }
+    else if (op == ":split") { t.bytes(A); unsigned dc = (unsigned)t.u(); char ds[2] = { (char)dc, 0 }; Cs a(A); SimpleString s(a.p), d(ds); std::vector<std::string> v; bool again = true; { SimpleStringCollection col; s.split(d, col); for (size_t i = 0; i < col.size(); i++) v.push_back(col[i].asCharString());
+            // the same collection filled a second time (its first array of strings is released), and the out-of-range element
+            s.split(d, col); again = col.size() == v.size(); for (size_t i = 0; again && i < col.size(); i++) again = v[i] == col[i].asCharString(); again = again && std::string(col[col.size()].asCharString()).empty(); } val = listTok(v);
+        { std::vector<std::string> e; size_t pos = 0; for (;;) { size_t f = A.find((char)dc, pos); if (f == std::string::npos) { if (pos < A.size()) e.push_back(A.substr(pos)); break; } e.push_back(A.substr(pos, f + 1 - pos)); pos = f + 1; } if (A.empty()) e.push_back(std::string()); ref = e == v && again; } }
     else if (op == ":fromtill") { t.bytes(A); unsigned c1 = (unsigned)t.u(), c2 = (unsigned)t.u(); Cs a(A); SimpleString s(a.p); SimpleString r = s.subStringFromTill((char)c1, (char)c2); val = hs(r); std::string e; size_t b = c1 ? A.find((char)c1) : std::string::npos; if (b != std::string::npos) { size_t en = c2 ? A.find((char)c2, b) : std::string::npos; e = en == std::string::npos ? A.substr(b) : A.substr(b, en - b); } ref = e == r.asCharString(); }
     else if (op == ":atoi") { t.bytes(A); Cs a(A); int r = SimpleString::AtoI(a.p); val = hz(r); ref = r == (int)strtol(a.p, nullptr, 10); }
     else if (op == ":atou") { t.bytes(A); Cs a(A); unsigned r = SimpleString::AtoU(a.p); val = hx(r); const char* q = a.p; while (*q == ' ' || (*q >= 9 && *q <= 13)) q++; unsigned e = (*q == '+' || *q == '-') ? 0u : (unsigned)strtoull(q, nullptr, 10); ref = r == e; }
